@@ -152,7 +152,82 @@ func structuralCandidates(s *spec.Spec) []*spec.Spec {
 				out = append(out, c)
 			}
 		}
+		// simpler arguments for the operations that are still used: midnight, first of the month, January
+		if sizeOf(s)["ops"] <= 6 {
+			used := map[int]bool{}
+			for _, t := range s.Tasks {
+				for _, st := range t.Ops {
+					if st.U != nil {
+						used[*st.U] = true
+					}
+					if st.Pub != nil {
+						used[st.Pub.U] = true
+					}
+					if st.Read != nil {
+						used[st.Read.U] = true
+					}
+				}
+			}
+			dated := map[string]bool{"solar": true, "solar2lunar": true, "lunar": true, "ltime": true, "tao": true, "foto": true, "eightchar": true, "lunar_next": true, "solar_next": true, "yun": true, "yunobj": true, "dayun": true}
+			for u := range s.Universe {
+				if !used[u] {
+					continue
+				}
+				op := &s.Universe[u]
+				tgt := op
+				if op.K == "sub" && op.Sub != nil {
+					tgt = op.Sub
+				}
+				if !dated[tgt.K] || len(tgt.A) < 6 {
+					continue
+				}
+				try := func(mut func(a []int) bool) {
+					c := clone(s)
+					o := &c.Universe[u]
+					if o.K == "sub" && o.Sub != nil {
+						o = o.Sub
+					}
+					if mut(o.A) {
+						c.Decisions = nil
+						out = append(out, c)
+					}
+				}
+				try(func(a []int) bool {
+					if a[3] == 0 && a[4] == 0 && a[5] == 0 {
+						return false
+					}
+					a[3], a[4], a[5] = 0, 0, 0
+					return true
+				})
+				try(func(a []int) bool {
+					if a[2] == 1 {
+						return false
+					}
+					a[2] = 1
+					return true
+				})
+				try(func(a []int) bool {
+					if a[1] == 1 {
+						return false
+					}
+					a[1] = 1
+					return true
+				})
+			}
+		}
 	case "C10":
+		for i := range s.Lookups {
+			if s.Lookups[i].API == 0 && s.Lookups[i].Base != 1900 && s.Lookups[i].Tie == nil {
+				c := clone(s)
+				c.Lookups[i].Base = 1900
+				out = append(out, c)
+			}
+			if s.Lookups[i].Sect != 2 && s.Lookups[i].Sect != 1 {
+				c := clone(s)
+				c.Lookups[i].Sect = 2
+				out = append(out, c)
+			}
+		}
 		for i := range s.Lookups {
 			if len(s.Lookups) == 1 {
 				break
@@ -205,6 +280,11 @@ func structuralCandidates(s *spec.Spec) []*spec.Spec {
 			if s.History[i].Extra > 0 {
 				c := clone(s)
 				c.History[i].Extra = 0
+				out = append(out, c)
+			}
+			if s.History[i].Rename != 0 {
+				c := clone(s)
+				c.History[i].Rename = 0
 				out = append(out, c)
 			}
 		}
